@@ -12,6 +12,20 @@ pub mod m {
     pub struct bool;
 }
 
+/// same-named types in different modules (and one differing only in letter case): a gate that
+/// "normalises" the recorded text (module paths, case) would confuse exactly these
+pub mod v1 {
+    pub struct Cfg(pub u32);
+    #[allow(non_camel_case_types)]
+    pub struct cfg(pub u32);
+}
+pub mod v2 {
+    pub struct Cfg(pub u32);
+}
+/// a non-ASCII type name: byte offsets into the rendered text differ from character counts
+#[allow(non_camel_case_types, dead_code)]
+pub struct Größe(pub u8);
+
 pub struct Entry {
     pub idx: usize,
     pub descr: &'static str,
@@ -27,12 +41,12 @@ macro_rules! family {
     ($( ($idx:literal, $descr:literal, $name:ident, $lv:expr, [$($q:tt)*], ($($p:ty),*), $r:ty) ),* $(,)?) => {
         pub mod tg {
             #![allow(unused, improper_ctypes_definitions, clippy::all)]
-            use super::m;
+            use super::{m, v1, v2};
             $( #[inline(never)] pub $($q)* fn $name($(_: $p),*) -> $r { unimplemented!() } )*
         }
         pub mod fk {
             #![allow(unused, improper_ctypes_definitions, clippy::all)]
-            use super::m;
+            use super::{m, v1, v2};
             $( #[inline(never)] pub $($q)* fn $name($(_: $p),*) -> $r { unimplemented!() } )*
         }
         pub fn family() -> Vec<Entry> {
@@ -86,6 +100,13 @@ family! {
     (33, "F0r:2.Pi64.Pi32.Pbool",            f33, None, [], (i64, i32), bool),
     (34, "F1c:0.Pbool",                      f34, None, [unsafe extern "C"], (), bool),
     (35, "F1c:0.T0",                         f35, None, [unsafe extern "C"], (), ()),
+    (36, "F0r:1.R0.Phx::sigs::v1::Cfg.Pbool", f36, None, [], (&v1::Cfg), bool),
+    (37, "F0r:1.R0.Phx::sigs::v2::Cfg.Pbool", f37, None, [], (&v2::Cfg), bool),
+    (38, "F0r:1.R0.Phx::sigs::v1::cfg.Pbool", f38, None, [], (&v1::cfg), bool),
+    (39, "F0r:1.Pi32.Phx::sigs::v1::Cfg",    f39, None, [], (i32), v1::Cfg),
+    (40, "F0r:1.Pi32.Phx::sigs::v2::Cfg",    f40, None, [], (i32), v2::Cfg),
+    (41, "F0r:1.Pi32.Gcore::option::Option:1.Phx::sigs::v1::Cfg", f41, None, [], (i32), Option<v1::Cfg>),
+    (42, "F0r:1.Pi32.Gcore::option::Option:1.Phx::sigs::v2::Cfg", f42, None, [], (i32), Option<v2::Cfg>),
 }
 
 pub struct BoolEntry {
@@ -133,7 +154,8 @@ boolfam! {
         (p2, ".T2.Pi32.Pi32", "1", ((i32, i32))),
         (p3, ".F0r:1.Pi32.Pi32", "1", (fn(i32) -> i32)),
         (p4, ".Pi32.T1.Pu8", "2", (i32, (u8,))),
-        (p5, ".F0r:0.Pbool", "1", (fn() -> bool))
+        (p5, ".F0r:0.Pbool", "1", (fn() -> bool)),
+        (p6, ".Phx::sigs::Größe.T2.Pi32.Pi32", "2", (Größe, (i32, i32)))
     ];
     rets: [
         (r_bool, "Pbool", bool),
@@ -390,8 +412,9 @@ pub fn run(a_: &Args, out: &mut impl Write) {
     // ---- the gate on every token string up to a length: the signature text is whatever the
     // caller's FuncPtr carries, so the helper must be right on arbitrary text, not only on types
     {
-        let alphabet: [(char, &str); 8] =
-            [('f', "fn"), ('(', "("), (')', ")"), ('>', " -> "), ('b', "bool"), ('u', "u8"), (',', ", "), ('&', "&")];
+        // `é` makes byte offsets and character counts differ in the scanned text
+        let alphabet: [(char, &str); 9] =
+            [('f', "fn"), ('(', "("), (')', ")"), ('>', " -> "), ('b', "bool"), ('u', "u8"), (',', ", "), ('&', "&"), ('e', "é")];
         let maxlen = if a_.tier_thorough { 6 } else { 5 };
         let ta = (bool_family()[0].target_addr)();
         let mut idx = vec![0usize; 0];
